@@ -367,7 +367,68 @@ func TestC04(t *testing.T) {
 				copySubviewHistories(out, cfg, h, 460, n/2, false)
 			}
 			randomHistories(out, "rand", cfg, h, int64(400+ci), n, func(g *gen) *histGen { return &histGen{g: g, r: g.r} })
+			if ci == 0 {
+				// sub-views handed out by Iter() while the parent is being changed
+				randomHistories(out, "iter", cfg, h, 470, n/2, func(g *gen) *histGen { return &histGen{g: g, r: g.r, iters: true} })
+				iterScripts(out, cfg, h)
+			}
 		})
+	}
+}
+
+// iterScripts: an iterator is opened, slots it has not reached yet are overwritten, then it hands
+// them out and they are mutated: each yielded sub-view is the element as it is at that moment.
+func iterScripts(out *caseOut, cfg string, h tree.HashFn) {
+	g := &gen{r: newRng(480), noBool: true, maxElem: 4}
+	hg := &histGen{g: g, r: g.r}
+	for k := 0; k < 30; k++ {
+		e := g.ty(1)
+		for !isComposite(e) || e.Kind == "union" {
+			e = g.ty(1)
+		}
+		var ty *Ty
+		if k%2 == 0 {
+			ty = &Ty{Kind: "list", Elem: e, N: 6}
+		} else {
+			ty = &Ty{Kind: "vec", Elem: e, N: 3}
+		}
+		v := g.val(ty)
+		for ty.Kind == "list" && len(v.Seq) < 3 {
+			v.Seq = append(v.Seq, g.val(e))
+		}
+		root, err := buildView(ty, v)
+		if err != nil {
+			continue
+		}
+		s := &hstate{h: h, count: &hashCalls}
+		s.push(ty, root)
+		var ops []hop
+		var sb strings.Builder
+		do := func(o hop) string {
+			ops = append(ops, o)
+			r := s.exec(o)
+			fmt.Fprintf(&sb, "s%d=%s ", len(ops)-1, r)
+			return r
+		}
+		do(hop{kind: "iter", h: 0})
+		do(hop{kind: "next", h: 0})
+		do(hop{kind: "set", h: 0, i: 1, src: hg.litFor(e)})
+		do(hop{kind: "set", h: 0, i: 2, src: hg.litFor(e)})
+		if strings.HasPrefix(do(hop{kind: "next", h: 0}), "OK_h") {
+			do(retarget(hg, s, hop{h: len(s.views) - 1}))
+		}
+		do(hop{kind: "htr", h: 0})
+		if ty.Kind == "list" {
+			do(hop{kind: "pop", h: 0})
+		}
+		if strings.HasPrefix(do(hop{kind: "next", h: 0}), "OK_h") {
+			do(retarget(hg, s, hop{h: len(s.views) - 1}))
+		}
+		do(hop{kind: "next", h: 0})
+		do(hop{kind: "next", h: 0})
+		do(hop{kind: "htr", h: 0})
+		do(hop{kind: "ser", h: 0})
+		histCase(out, "iterscript", cfg, ty, v, "ctor", ops, sb.String()+"snaps=ok")
 	}
 }
 
@@ -647,6 +708,60 @@ func TestC07(t *testing.T) {
 					do(hop{kind: "count", h: 0})
 				}
 				histCase(out, "count", cfg, ty, v, "ctor", ops, sb.String()+"snaps=ok")
+			}
+			// defaults hashed while still untouched, then ONE write: a default is built from shared
+			// sub-structures, and its first root request must leave all of them memoised
+			{
+				u64, u8 := &Ty{Kind: "u", N: 8}, &Ty{Kind: "u", N: 1}
+				rootT := &Ty{Kind: "root"}
+				for _, ty := range []*Ty{
+					{Kind: "vec", Elem: u64, N: 64}, {Kind: "vec", Elem: u64, N: 1024}, {Kind: "bitvec", N: 4096},
+					{Kind: "vec", Elem: rootT, N: 128}, {Kind: "vec", Elem: u8, N: 4096},
+					{Kind: "cont", Fields: []*Ty{{Kind: "vec", Elem: u64, N: 512}, u8, {Kind: "vec", Elem: rootT, N: 16}}},
+					{Kind: "vec", Elem: &Ty{Kind: "cont", Fields: []*Ty{u64, {Kind: "vec", Elem: u64, N: 64}}}, N: 8},
+					{Kind: "list", Elem: &Ty{Kind: "vec", Elem: u64, N: 64}, N: 1 << 20},
+				} {
+					for rep := 0; rep < 3; rep++ {
+						s := &hstate{h: h, count: &hashCalls}
+						s.push(ty, ty.Def().Default(nil))
+						var ops []hop
+						var sb strings.Builder
+						do := func(o hop) string {
+							ops = append(ops, o)
+							r := s.exec(o)
+							fmt.Fprintf(&sb, "s%d=%s ", len(ops)-1, r)
+							return r
+						}
+						hg := &histGen{g: g, r: g.r}
+						if ty.Kind == "list" {
+							do(hop{kind: "append", h: 0, src: srcSpec{kind: "dflt", t: ty.Elem}})
+						}
+						do(hop{kind: "htr", h: 0})
+						do(hop{kind: "count", h: 0})
+						target := 0
+						if rep > 0 && !isPackedOrBits(ty) {
+							ln := currentLen(s.views[0], ty)
+							if r := do(hop{kind: "get", h: 0, i: uint64(g.r.Int63n(int64(ln)))}); strings.HasPrefix(r, "OK_h") {
+								target = len(s.views) - 1
+								if !isComposite(s.tys[target]) {
+									target = 0
+								}
+							}
+						}
+						o := retarget(hg, s, hop{h: target})
+						if o.src.kind == "lit" && isComposite(o.src.t) {
+							if r := do(hop{kind: "new", t: o.src.t, v: o.src.v}); strings.HasPrefix(r, "OK_h") {
+								k := len(s.views) - 1
+								do(hop{kind: "htr", h: k})
+								o.src = srcSpec{kind: "h", h: k}
+							}
+						}
+						do(o)
+						do(hop{kind: "count", h: 0})
+						do(hop{kind: "count", h: 0})
+						histCase(out, "dflt", cfg, ty, nil, "default", ops, sb.String()+"snaps=ok")
+					}
+				}
 			}
 			// appends that expand zero padding at large limits
 			for _, lim := range []uint64{1 << 20, 1 << 32, 1 << 40} {
